@@ -166,7 +166,7 @@ func (w *world) snap(ctx sdk.Context) snapshot {
 			s.Cidx = append(s.Cidx, [2]int64{int64(cid), int64(w.valID[string(v.ValKey)])})
 		}
 		if i, found := w.slk.GetValidatorSigningInfo(ctx, ca); found {
-			s.SI[cid] = sinfo{i.StartHeight, i.InactiveUntil.Unix(), i.MischanceConfidence, i.Mischance, i.LastPresentBlock, i.MissedBlocksCounter, i.ProducedBlocksCounter}
+			s.SI[cid] = sinfo{i.StartHeight, unixNano(i.InactiveUntil), i.MischanceConfidence, i.Mischance, i.LastPresentBlock, i.MissedBlocksCounter, i.ProducedBlocksCounter}
 		}
 		if _, err := w.slk.GetPubkey(ctx, pk.Address()); err == nil {
 			s.Pk = append(s.Pk, int64(cid))
@@ -174,7 +174,7 @@ func (w *world) snap(ctx sdk.Context) snapshot {
 	}
 	for id, a := range w.valAddrs {
 		if info, found := w.sk.GetValidatorJailInfo(ctx, a); found {
-			s.Jail = append(s.Jail, [2]int64{int64(id), info.Time.Unix()})
+			s.Jail = append(s.Jail, [2]int64{int64(id), unixNano(info.Time)})
 		}
 	}
 	return s
@@ -288,7 +288,7 @@ type hist struct {
 func (x *hist) blockCtx() sdk.Context {
 	c := configs[x.cfg]
 	cp := &tmproto.ConsensusParams{Evidence: &tmproto.EvidenceParams{MaxAgeNumBlocks: c.EvAgeBlocks, MaxAgeDuration: time.Duration(c.EvAgeDur) * time.Second, MaxBytes: 10000}}
-	return x.ctx.WithBlockHeader(tmproto.Header{Height: x.h, Time: time.Unix(x.t, 0).UTC()}).WithConsensusParams(cp)
+	return x.ctx.WithBlockHeader(tmproto.Header{Height: x.h, Time: time.Unix(0, x.t).UTC()}).WithConsensusParams(cp)
 }
 
 func (x *hist) statusLine(s snapshot) string {
@@ -392,13 +392,23 @@ func (x *hist) ownerMsg(kind string, v int) {
 	x.record(fmt.Sprintf("%s %d", opc, v), jop{Op: kind, V: v, Err: e}, res, "")
 }
 
-func (x *hist) newBlock(dt int64) {
+// newBlock: next block dt SECONDS later; newBlockNs: dt nanoseconds later
+func (x *hist) newBlock(dt int64) { x.newBlockNs(dt * 1e9) }
+func (x *hist) newBlockNs(dt int64) {
 	if x.dead {
 		return // the chain has halted (or the sets already differ): the history ends here
 	}
 	x.h++
 	x.t += dt
 	x.record(fmt.Sprintf("ONewBlock %d", dt), jop{Op: "newblock", Dt: dt}, "ROk", "")
+}
+
+// the zero time.Time of a fresh signing info is time.Unix(0, 0)
+func unixNano(t time.Time) int64 {
+	if t.IsZero() {
+		return 0
+	}
+	return t.UnixNano()
 }
 
 func (x *hist) votes(vs [][2]int64) {
@@ -435,7 +445,7 @@ func (x *hist) evidence(es [][3]int64) {
 	var cs []string
 	for _, e := range es {
 		ms = append(ms, abci.Misbehavior{Type: abci.MisbehaviorType_DUPLICATE_VOTE, Validator: abci.Validator{Address: w.keys[e[0]].Address(), Power: 1},
-			Height: e[1], Time: time.Unix(e[2], 0).UTC(), TotalVotingPower: 1})
+			Height: e[1], Time: time.Unix(0, e[2]).UTC(), TotalVotingPower: 1})
 		cs = append(cs, hx.Tuple(hx.Z(e[0]), hx.Z(e[1]), hx.Z(e[2])))
 	}
 	req := abci.RequestBeginBlock{ByzantineValidators: ms}
@@ -490,7 +500,7 @@ func (x *hist) upgradePause(vs []int64, r *hx.Rng) {
 	a := appOf(w)
 	gk := a.CustomGovKeeper
 	ctx := x.blockCtx()
-	content := upgradetypes.NewSoftwareUpgradeProposal("up", nil, x.t-1, "old", "new", "", 0, "", true, false, true)
+	content := upgradetypes.NewSoftwareUpgradeProposal("up", nil, x.t/1e9-1, "old", "new", "", 0, "", true, false, true)
 	pid, err := gk.CreateAndSaveProposalWithContent(ctx, "upgrade", "upgrade", content)
 	if err != nil {
 		panic(err)
@@ -519,11 +529,13 @@ func (x *hist) upgradePause(vs []int64, r *hx.Rng) {
 			}
 		}
 		if in[int64(id)] {
-			switch r.Intn(3) {
+			switch r.Intn(4) {
 			case 0:
 				gk.SaveVote(ctx, govtypes.NewVote(pid, addr, govtypes.OptionNo, sdk.ZeroDec()))
 			case 1:
 				gk.SaveVote(ctx, govtypes.NewVote(pid, addr, govtypes.OptionAbstain, sdk.ZeroDec()))
+			case 2:
+				gk.SaveVote(ctx, govtypes.NewVote(pid, addr, govtypes.OptionNoWithVeto, sdk.ZeroDec()))
 			}
 		} else if want {
 			gk.SaveVote(ctx, govtypes.NewVote(pid, addr, govtypes.OptionYes, sdk.ZeroDec()))
@@ -548,8 +560,8 @@ func (x *hist) upgradePause(vs []int64, r *hx.Rng) {
 		processed[actor.Address.String()] = true
 	}
 	vs = order
-	plan := upgradetypes.Plan{Name: "up", UpgradeTime: x.t - 1, InstateUpgrade: true, SkipHandler: true, ProposalID: pid}
-	if err := a.UpgradeKeeper.SaveNextPlan(ctx.WithBlockTime(time.Unix(x.t-10, 0).UTC()), plan); err != nil {
+	plan := upgradetypes.Plan{Name: "up", UpgradeTime: x.t/1e9 - 1, InstateUpgrade: true, SkipHandler: true, ProposalID: pid}
+	if err := a.UpgradeKeeper.SaveNextPlan(ctx.WithBlockTime(time.Unix(0, x.t-10e9).UTC()), plan); err != nil {
 		panic(err)
 	}
 	res := "ROk"
@@ -682,7 +694,7 @@ func main() {
 	var cases []string
 	var js []jcase
 	signersOK := true
-	T0, H0 := int64(1700000000), int64(10)
+	T0, H0 := int64(1700000000)*1e9, int64(10)
 	initSnap := w.snap(base)
 
 	newHist := func(cfg int) *hist {
@@ -734,6 +746,12 @@ func main() {
 		runThr(x, genID, tc)
 		finish(x, fmt.Sprintf("thr:mc%d:max%d:%s->%d:after%d", tc.mc0, tc.maxm0, propNames[tc.which], tc.val, tc.k))
 	}
+	for _, bc := range bndCases() {
+		x := newHist(0)
+		runBnd(x, genID, bc)
+		finish(x, fmt.Sprintf("bnd:%s:%+dns", bc.kind, bc.d))
+	}
+	dist["boundary-stream:run"] = len(bndCases())
 	dist["threshold-stream:run"] = len(tcs)
 	dist["threshold-stream:existing"] = nThr
 	dist["systematic:tuples-run"] = len(plan)
@@ -807,6 +825,9 @@ func kindClass(k string) string {
 	}
 	if strings.HasPrefix(k, "thr:") {
 		return "threshold-stream"
+	}
+	if strings.HasPrefix(k, "bnd:") {
+		return "boundary-stream"
 	}
 	return k
 }
